@@ -34,7 +34,12 @@ def run(ctx, report):
 
     # clause 1
     for c in classes:
-        S.rule_eqhash(report, c, EQ_EXCEPTIONS, clause="1", require_init_match=(c.name != "Region"))
+        if c.name in VALUE_CLASSES + ["Region"]:
+            report.structural_section(f"{c.name} __eq__/__hash__ (shape)", "R-GRID on a grid of values of the class: a == b exactly when the "
+                                      "components are equal, != its negation, equal values hash alike (geometry_value_fold)",
+                                      S.rule_eqhash, report, c, EQ_EXCEPTIONS, clause="1", require_init_match=(c.name != "Region"))
+        else:
+            S.rule_eqhash(report, c, EQ_EXCEPTIONS, clause="1", require_init_match=(c.name != "Region"))
     rule_bool_not_magnitude(report, classes, clause="1")
 
     # clause 2
